@@ -1,7 +1,7 @@
 (* Entry point of the executable model: one case (a [val]) in, one
    observation (a [val]) out.  The same function is extracted to OCaml
    (vv_eval) and re-evaluated on samples inside Coq by vm_compute. *)
-From VV Require Import Base.Bits Base.Rt Base.Val Gen.GenConsts Gen.GenLayout Gen.GenFns Spec.ValidityDec Spec.BeSpec Spec.FeSpec Spec.SessSpec Spec.ProxySpec Spec.DaemonSpec Model.Transport Model.BeServer Model.Frontend Model.Proxy Model.Daemon.
+From VV Require Import Base.Bits Base.Rt Base.Val Gen.GenConsts Gen.GenLayout Gen.GenFns Spec.ValidityDec Spec.BeSpec Spec.FeSpec Spec.SessSpec Spec.ProxySpec Spec.DaemonSpec Spec.ShutSpec Model.Transport Model.BeServer Model.Frontend Model.Proxy Model.Daemon Model.Shutdown.
 Open Scope string_scope.
 Open Scope list_scope.
 Open Scope N_scope.
@@ -434,6 +434,16 @@ Definition run_dmn (args : list val) : val :=
   | _ => verror "args"
   end.
 
+(* ---- family "shut": shutdown / teardown scenarios ----
+   args: [VS position; VN k; VN shutdown; VN callers; VN repeats; VN release_first; VN threads; VN exits] *)
+Definition run_shut (args : list val) : val :=
+  match args with
+  | [VS pos; VN k; VN shutdown; VN _; VN _; VN rf; VN _; VN _] =>
+      if String.eqb (substring 0 5 pos) "serve" then serve_obs pos
+      else shut_obs pos k (negb (shutdown =? 0)) (negb (rf =? 0))
+  | _ => verror "args"
+  end.
+
 Definition run (c : val) : val :=
   match c with
   | VL (VS fam :: args) =>
@@ -446,6 +456,8 @@ Definition run (c : val) : val :=
       else if String.eqb fam "sess" then run_sess args
       else if String.eqb fam "tx" then run_tx args
       else if String.eqb fam "dmn" then run_dmn args
+      else if String.eqb fam "shut" then run_shut args
+      else if String.eqb fam "shut-spec" then shut_spec args
       else if String.eqb fam "dmn-spec" then dmn_spec args
       else if String.eqb fam "fsrv" then run_fsrv args
       else if String.eqb fam "fsrv-spec" then fsrv_spec args
